@@ -1203,6 +1203,11 @@ impl Property for C10 {
                     .filter(|op| !matches!(op, Op::Pass | Op::Wait { .. }))
                     .map(|op| op_kind(op).to_owned())
                     .collect();
+                if scn.opts.include_deps.is_some() {
+                    // a finding that needs the harness rule never matches a scenario
+                    // without it, and the other way round
+                    kinds.push("HarnessRule".to_owned());
+                }
                 kinds.sort();
                 kinds
             }
